@@ -19,7 +19,7 @@ from common import fl, close
 
 GEN_PREFIXES = ["verif/util.py:clean", "verif/input.py", "scripts/text2nc.py"]
 EXTRA_TARGETS = ["Model/Render.vo", "Gen/Gen_io.vo"]
-ASSUMPTIONS = ["the netCDF4 library and the file system are outside the model", "values are float32-representable (multiples of 1/4, lead times among 0,1,1.5,3,6,24)",
+ASSUMPTIONS = ["the netCDF4 library and the file system are outside the model", "units are compared without the $...$ wrapper the NetCDF reader adds for display", "values are float32-representable (multiples of 1/4, lead times among 0,1,1.5,3,6,24)",
                "a station without an altitude variable has no elevation in NetCDF and elevation 0 in text: not compared"]
 NAN = float("nan")
 
@@ -32,11 +32,11 @@ def gen_abstract(rng):
     locs = sorted(rng.sample([(1, 60.0, 10.0, 100.0), (2, 60.5, 10.5, 0.0), (7, 59.0, -120.0, 250.0), (18, -33.5, 151.25, 12.0)], ns))
     if ids_from_zero:
         locs = [(i, l[1], l[2], l[3]) for i, l in enumerate(locs)]
-    fields = ["obs", "fcst"]
+    fields = ["obs", "fcst"] if rng.random() < 0.85 else [rng.choice(["obs", "fcst"])]      # a file may lack observations (or forecasts)
     if rng.random() < 0.4:
         fields.append("pit")
-    thr = sorted(rng.sample([0.0, 1.0, 5.0, 10.0], rng.randint(0, 2)))
-    qua = sorted(rng.sample([0.25, 0.5, 0.75], rng.randint(0, 2)))
+    thr = sorted(rng.sample([-5.0, 0.0, 1.0, 5.0, 10.0, 20.0], rng.choice([0, 1, 2, 3, 4])))
+    qua = sorted(rng.sample([0.125, 0.25, 0.5, 0.75, 0.875], rng.choice([0, 1, 2, 3])))
     nmem = rng.choice([0, 0, 2, 3])
     other = ["crps"] if rng.random() < 0.3 else []
     def cube(extra=None):
@@ -63,6 +63,7 @@ def write_text(path, d):
     hdr = ["unixtime", "leadtime", "location", "lat", "lon", "altitude"] + cols + ["p%g" % t for t in d["thr"]] + ["q%g" % q for q in d["qua"]] + \
           ["e%d" % m for m in range(d["nmem"])]
     with open(path, "w") as f:
+        f.write("# variable: Temperature\n# units: degC\n")
         for k_ in ("x0", "x1"):
             if d.get(k_) is not None:
                 f.write("# %s: %g\n" % (k_, d[k_]))
@@ -148,6 +149,10 @@ def canon(inp):
     out["x"] = None if not qs else np.asarray(inp.quantile_scores, float)[:, :, order][:, :, :, np.argsort(qs)]
     e = inp.ensemble
     out["ens"] = None if e is None or np.asarray(e).shape[-1] == 0 else np.asarray(e, float)[:, :, order]
+    out["other_names"] = sorted(str(n) for n in inp.other_fields)
+    out["other"] = {str(n): np.asarray(inp.other_score(n), float)[:, :, order] for n in inp.other_fields if np.asarray(inp.other_score(n)).ndim == 3}
+    out["field_names"] = sorted(f.name() for f in inp.get_fields())
+    out["variable"] = (str(inp.variable.name), str(inp.variable.units).replace("$", ""), inp.variable.x0, inp.variable.x1)
     return out
 
 
@@ -244,13 +249,17 @@ def _explore(out, tier, seed, facts, replay):
                 if not ((va is None and vb is None and want_ is None) or (va is not None and vb is not None and want_ is not None
                                                                          and float(va) == float(vb) == float(want_))):
                     bad.append("variable attribute %s (text %r, NetCDF %r, written %r)" % (k_, va, vb, want_))
+            if a["other_names"] != b["other_names"] or a["field_names"] != b["field_names"]:
+                bad.append("the list of fields (text: other fields %r, all %r; NetCDF: other fields %r, all %r)" % (a["other_names"], a["field_names"], b["other_names"], b["field_names"]))
+            if a["variable"][:2] != b["variable"][:2]:
+                bad.append("variable name/units (text %r, NetCDF %r)" % (a["variable"][:2], b["variable"][:2]))
             for o in d["other"]:
                 oa = np.asarray(it.other_score(o))[:, :, sorted(range(len(it.locations)), key=lambda i: it.locations[i].id)]
                 ob = np.asarray(inn.other_score(o))[:, :, sorted(range(len(inn.locations)), key=lambda i: inn.locations[i].id)]
                 if not same(oa, ob):
                     bad.append(o)
             if bad:
-                out.violation("text-vs-netcdf:%s" % bad[0], "the text and NetCDF files of the same dataset differ in %s (NetCDF options %r)" % (", ".join(bad), opts),
+                out.violation("text-vs-netcdf:%s" % bad[0].split(" (")[0], "the text and NetCDF files of the same dataset differ in %s (NetCDF options %r)" % (", ".join(bad), opts),
                               {"options": {k: (v if v is None else repr(v)) for k, v in opts.items()}, "times": d["times"], "leads": d["leads"]})
                 continue
             # the scores agree
@@ -271,7 +280,7 @@ def _explore(out, tier, seed, facts, replay):
             if len(samples) < 2:
                 samples.append({"options": str(opts), "dims": [len(d["times"]), len(d["leads"]), len(d["locs"])], "thresholds": d["thr"], "quantiles": d["qua"], "members": d["nmem"]})
             # ---- text2nc -------------------------------------------------------------------------------
-            if ci % 4 == 0:
+            if ci % 2 == 0:
                 spec = importlib.util.spec_from_file_location("text2nc_mod", os.path.join(common.REPO, "scripts", "text2nc.py"))
                 mod = importlib.util.module_from_spec(spec)
                 spec.loader.exec_module(mod)
@@ -296,11 +305,20 @@ def _explore(out, tier, seed, facts, replay):
                     bad.append("leadtimes/locations")
                 if not same([l[1:] for l in c["locs"]], [l[1:] for l in a["locs"]], 1e-6):
                     bad.append("location metadata")
-                for f in ("obs", "fcst", "cdf", "x"):
+                for f in ("obs", "fcst", "pit", "cdf", "x", "ens"):
                     if not same(c[f], a[f], 1e-6):
-                        bad.append(f)
+                        bad.append(f + (" (absent in the text file, present after conversion)" if a[f] is None else " (absent after conversion)" if c[f] is None else ""))
+                if c["thr"] != a["thr"] or c["qua"] != a["qua"]:
+                    bad.append("thresholds/quantiles")
+                if c["other_names"] != a["other_names"] or c["field_names"] != a["field_names"]:
+                    bad.append("fields: %r in the text file, %r after conversion" % (a["field_names"], c["field_names"]))
+                for o_ in a["other"]:
+                    if o_ in c["other"] and not same(c["other"][o_], a["other"][o_], 1e-6):
+                        bad.append(o_)
+                if c["variable"] != a["variable"]:
+                    bad.append("variable (name, units, x0, x1): %r in the text file, %r after conversion" % (a["variable"], c["variable"]))
                 if bad:
-                    out.violation("text2nc:%s" % bad[0].split()[0], "text2nc does not preserve %s" % "; ".join(bad), {"file": open(ft).read()[:600]})
+                    out.violation("text2nc:%s" % bad[0].split(":")[0].split(" (")[0], "text2nc does not preserve %s" % "; ".join(bad), {"file": open(ft).read()[:600]})
         # times that are not float32-representable survive the conversion (unix times are stored as f8)
         fn = os.path.join(tmp, "odd.txt")
         open(fn, "w").write("unixtime leadtime location obs fcst\n1325397605 0 1 1 2\n1330473677 0 1 2 3\n")
